@@ -487,11 +487,13 @@ theorem identChar_tok {c : Char} (h : identChar c = true) : keyChar c = true ∧
 
 theorem isIdent_tok {k : String} (h : isIdent k = true) : TokText k.toList ∧ k.toList ≠ [] := by
   unfold isIdent at h
-  split at h
-  · cases h
-  · rename_i c cs heq
-    rw [heq]
-    simp only [Bool.and_eq_true, List.all_eq_true] at h
+  simp only [Bool.and_eq_true] at h
+  obtain ⟨_, h⟩ := h
+  cases heq : k.toList with
+  | nil => rw [heq] at h; cases h
+  | cons c cs =>
+    rw [heq] at h
+    simp only [isIdentText, Bool.and_eq_true, List.all_eq_true] at h
     exact ⟨TokText.cons (identChar_tok h.1.2) fun d hd => identChar_tok (h.2 d hd), by simp⟩
 
 def toItem : Arg → Item
